@@ -234,6 +234,126 @@ RULES_MODELLED = ['verit_not_or', 'verit_not_and', 'verit_not_not', 'verit_impli
                   'verit_and', 'verit_or', 'verit_equiv1', 'verit_equiv2', 'verit_not_equiv1', 'verit_not_equiv2', 'verit_false']
 
 
+def la_family(run, r, n):
+    """la_generic (linear arithmetic tautologies with Farkas coefficients) over int and real: clauses whose negated literals
+    are refuted by the supplied positive combination, and tight / shifted / wrongly weighted near misses.  An accepted clause
+    must be valid in linear integer / real arithmetic; validity is decided by Z3 on the clause itself (search oracle), the
+    counter-model it finds is the failing input."""
+    import z3
+    from fractions import Fraction
+    from kernel.type import IntType, RealType
+    from kernel.term import Int, Real
+    from kernel import term as kterm
+    try:
+        basic.load_theory('real')
+        from smt.veriT import la_generic as _lag   # noqa: registers verit_la_generic
+        macro = theory.global_macros['verit_la_generic']
+    except RecursionError:
+        raise
+    except Exception as e:
+        run.stat('la_setup:' + type(e).__name__)
+        return dict(cases=0)
+    devnull = io.StringIO()
+    stats = dict(cases=0, accepted=0, accepted_valid=0)
+
+    def lin_term(T, coeffs, const, vs):
+        num = Int if T == IntType else Real
+        t = None
+        for c, v in zip(coeffs, vs):
+            if c == 0:
+                continue
+            m = v if c == 1 else kterm.times(T)(num(c), v)
+            t = m if t is None else kterm.plus(T)(t, m)
+        if t is None:
+            return num(const)
+        if const != 0:
+            t = kterm.plus(T)(t, num(const))
+        return t
+
+    def z3_lin(T, coeffs, const, zs):
+        e = z3.IntVal(const) if T == IntType else z3.RealVal(const)
+        for c, v in zip(coeffs, zs):
+            e = e + c * v
+        return e
+    for _ in range(n):
+        T = r.choice([IntType, IntType, RealType])
+        vs = [Var(nm, T) for nm in ('x', 'y', 'z')]
+        zs = [(z3.Int if T == IntType else z3.Real)(nm) for nm in ('x', 'y', 'z')]
+        k = r.choice([1, 2, 2, 3])
+        lam = [r.choice([1, 1, 2, 3]) for _ in range(k)]
+        # constraints e_i (>=|>|=) 0 with e_i = a_i . v + b_i ; the last one is chosen so that sum lam_i e_i = -d
+        cons = []
+        for i in range(k - 1):
+            cons.append(([r.randint(-2, 2) for _ in vs], r.randint(-3, 3), r.choice(['ge', 'ge', 'gt', 'eq'])))
+        lam[-1] = 1
+        d = r.choice([0, 0, 1, 1, 2])
+        sa = [-sum(lam[i] * cons[i][0][j] for i in range(k - 1)) for j in range(len(vs))]
+        sb = -sum(lam[i] * cons[i][1] for i in range(k - 1)) - d
+        cons.append((sa, sb, r.choice(['ge', 'ge', 'gt'])))
+        variant = r.choice(['farkas', 'farkas', 'shift', 'weight', 'kind'])
+        if variant == 'shift':
+            j = r.randrange(k)
+            cons[j] = (cons[j][0], cons[j][1] + r.choice([1, 2]), cons[j][2])
+        elif variant == 'weight':
+            lam[r.randrange(k)] += 1
+        elif variant == 'kind':
+            j = r.randrange(k)
+            cons[j] = (cons[j][0], cons[j][1], {'ge': 'gt', 'gt': 'ge', 'eq': 'ge'}[cons[j][2]])
+        lits, zlits = [], []
+        for (a_, b_, kind) in cons:
+            # split e = p - q with p = positive part + constant, q = negative part
+            pa = [c if c > 0 else 0 for c in a_]
+            qa = [-c if c < 0 else 0 for c in a_]
+            pt_, qt_ = lin_term(T, pa, b_, vs), lin_term(T, qa, 0, vs)
+            pz, qz = z3_lin(T, pa, b_, zs), z3_lin(T, qa, 0, zs)
+            if kind == 'ge':       # constraint p >= q
+                if r.random() < 0.5:
+                    lits.append(kterm.less(T)(pt_, qt_)); zlits.append(pz < qz)
+                else:
+                    lits.append(Not(kterm.less_eq(T)(qt_, pt_))); zlits.append(z3.Not(qz <= pz))
+            elif kind == 'gt':     # constraint p > q
+                if r.random() < 0.5:
+                    lits.append(kterm.less_eq(T)(pt_, qt_)); zlits.append(pz <= qz)
+                else:
+                    lits.append(Not(kterm.less(T)(qt_, pt_))); zlits.append(z3.Not(qz < pz))
+            else:                  # constraint p = q
+                lits.append(Not(Eq(pt_, qt_))); zlits.append(z3.Not(pz == qz))
+        num = Int if T == IntType else Real
+        args = tuple(lits) + ([num(c) for c in lam],)
+        stats['cases'] += 1
+        try:
+            with contextlib.redirect_stdout(devnull):
+                th = macro.eval(args, [])
+            err = None
+        except RecursionError:
+            raise
+        except Exception as e:
+            th, err = None, type(e).__name__
+        run.stat('la_generic:%s:%s' % (variant, 'accepted' if th is not None else err))
+        run.count(('la', tuple(sstr(l) for l in lits), tuple(lam)), nontrivial=th is not None)
+        if th is None:
+            continue
+        stats['accepted'] += 1
+        if th.hyps or th.prop != Or(*lits):
+            run.violation('property', 'la_generic returns a sequent other than the offered clause: %s' % sstr(th),
+                          dict(literals=[sstr(l) for l in lits], coefficients=lam, result=sstr(th)), key='C18:la_generic:shape')
+            continue
+        s_ = z3.Solver()
+        s_.set('timeout', 4000)
+        s_.add(z3.Not(z3.Or(*zlits)))
+        res = s_.check()
+        if res == z3.unsat:
+            stats['accepted_valid'] += 1
+        elif res == z3.sat:
+            m = s_.model()
+            run.violation('property', 'verit_la_generic accepts a clause that is not valid in linear %s arithmetic: %s with coefficients %s'
+                          % ('integer' if T == IntType else 'real', sstr(Or(*lits)), lam),
+                          dict(literals=[sstr(l) for l in lits], literals_repr=[repr(l) for l in lits], coefficients=lam, type=str(T),
+                               counter_model=str(m), variant=variant, reproduce="theory.global_macros['verit_la_generic'].eval(tuple(literals) + ([coeffs],), [])"),
+                          key='C18:la_generic:invalid')
+    return stats
+
+
 def run_check(tier, seed):
     run = Run(PROP, 'proof', tier, seed)
     proof_stage(run, PROP)
@@ -329,8 +449,9 @@ def run_check(tier, seed):
     run.cov['rule'] = ('for each of %d propositional rules: a correct instance and two single-field near misses per round '
                        '(literal dropped/added/negated/permuted, premise shape changed, premise shortened/lengthened, wrong pivot); '
                        'non-trivial = accepted by macro.eval; distinct = distinct (rule, args, premises)' % len(templates(g)))
-    run.assumptions = ['non-propositional subterms are opaque atoms (equality/UF/arithmetic/quantifier rules are not exercised)',
-                       'la_generic and the quantifier rules are not covered in this build']
+    run.cov['search_la_generic'] = la_family(run, r, 150 if tier == 'quick' else 2500)
+    run.assumptions = ['non-propositional subterms are opaque atoms in the truth-table oracle (equality/UF/quantifier rules are not exercised)',
+                       'la_generic: validity of an accepted clause is decided by Z3 on the clause (search oracle, no theorem); the quantifier rules are not covered']
     return run.finish()
 
 
